@@ -313,6 +313,10 @@ def run_shard(spec):
         for k, (tag, prog) in enumerate(idioms.history_programs()):
             if k % (spec['parts'] * 4) == spec['part'] or (tag.startswith('history-two-functions') and k % spec['parts'] == spec['part']):
                 work += [(tag, A.render(prog), a, 2, False) for a in (idioms.HISTORY_ARGS[k % 4], idioms.HISTORY_ARGS[(k + 1) % 4])]
+        # an index held in a global that the right-hand side changes (stores through a global index may not be reordered once the checks are off)
+        for k, (tag, prog) in enumerate(idioms.capture_programs()):
+            if ('/assign' in tag or '/opassign' in tag) and tag.endswith(('to0', 'to4')) and k % spec['parts'] == spec['part']:
+                work += [(tag, A.render(prog), idioms.CAPTURE_ARGS[k % 2], 2 + k % 3, False)]
         # scale grids: many locals / parameters / elements / labels / nesting levels / try blocks, both builds
         for k, tag, prog, argsets in common.scale_items():
             if k % (spec['parts'] * 2) == spec['part'] + spec['parts'] * (spec['seed'] % 2):
